@@ -81,6 +81,7 @@ type GenerateOptions struct {
 //
 // Generate may return one or more errors if it failed to load the packages.
 func Generate(ctx context.Context, wd string, env []string, patterns []string, opts *GenerateOptions) ([]GenerateResult, []error) {
+	defer verifFlush()
 	if opts == nil {
 		opts = &GenerateOptions{}
 	}
